@@ -58,7 +58,7 @@ TypingFails(e) ==
         ELSE {})
   \* C05: a signature-typed part accepts iff the signature-free class accepts and its overhangs match
   \cup (IF Len(c.sig) = 2 /\ e.gen.has /\ r.exc = "" /\ e.gen.res.exc = ""
-        THEN IF nuc /\ TwoSites(w, c.enz) /\ UniqueStart(e.gen.toks, w)
+        THEN IF nuc /\ TwoSites(w, c.enz) /\ Cardinality(Starts(e.gen.toks, w, TRUE)) <= 1      \* (no generic match at all is unambiguous too)
              THEN Chk("C05:PartIffGenericAndSignature",
                       r.valid = (/\ e.gen.res.valid /\ NoQueryRaised(e.gen.res)
                                  /\ SigMatches(c.sig[1], e.gen.res.up) /\ SigMatches(c.sig[2], e.gen.res.down)))
